@@ -58,6 +58,10 @@ def make(path, root, src, name="t.html", **kw):
         return TemplateLookup(directories=[root], **kw).get_template(name), fn
     if path == "moddir":
         return TemplateLookup(directories=[root], module_directory=os.path.join(root, "mods"), **kw).get_template(name), fn
+    if path == "moddir-rel":
+        # a module directory given relative to the working directory (the caller restores the working directory)
+        os.chdir(root)
+        return TemplateLookup(directories=[root], module_directory="mods", **kw).get_template(name), fn
 
 
 def boom():
@@ -74,6 +78,7 @@ def run_fault(args):
     call = "boom()" if kind != "filter" else "fboom"
     src, expect = build(kind, call)
     root = tempfile.mkdtemp(prefix="c12_")
+    cwd0 = os.getcwd()
     try:
         t, fname = make(path, root, src)
         try:
@@ -117,6 +122,7 @@ def run_fault(args):
             return {"construct": kind, "path": path, "expected_line": expect, "problem": "format_exceptions output does not show line %d" % expect}
         return None
     finally:
+        os.chdir(cwd0)
         shutil.rmtree(root, ignore_errors=True)
 
 
@@ -154,8 +160,81 @@ def run_chain(path):
         for k, ln in expect.items():
             if ln not in got.get(k, []):
                 problems.append("%s: lines %r reported, expected %d" % (k, got.get(k), ln))
+        problems += record_consistency(tb, files)
         if problems:
             return {"path": path, "problem": "; ".join(problems)}
+        return None
+    finally:
+        shutil.rmtree(root, ignore_errors=True)
+
+
+def record_consistency(tb, files):
+    """every template record carries the source of the template it names, its line text is that line of that
+    source, and RichTraceback.source / .lineno show the innermost template frame's own source"""
+    problems = []
+    last = None
+    for r in tb.records:
+        if r[4] is None:
+            continue
+        name = os.path.basename(str(r[4])).lstrip("/")
+        src = files.get(name)
+        if src is None:
+            continue
+        last = (name, r)
+        if r[7] != src:
+            other = [k for k, v in files.items() if v == r[7]]
+            problems.append("record for %s line %d carries the source of %s" % (name, r[5], other or "something else"))
+        lines = src.split("\n")
+        if r[5] <= len(lines) and r[6] != lines[r[5] - 1]:
+            problems.append("record for %s line %d shows %r, that line reads %r" % (name, r[5], r[6], lines[r[5] - 1]))
+    if last is not None:
+        name, r = last
+        if tb.lineno != r[5] or tb.source != files[name]:
+            other = [k for k, v in files.items() if v == tb.source]
+            problems.append("RichTraceback.lineno/source = line %r of %s, the innermost template frame is %s line %d"
+                            % (tb.lineno, other or "another text", name, r[5]))
+    return problems
+
+
+REENTRANT = {
+    # a template frame, a frame of another template, then the first template again (a call body, a caller.body()
+    # round trip, an inherited block calling back into the child): the per-module cache of the frame walk is hit
+    "call-body": {"a.html": '<%namespace name="b" file="b.html"/>\nA line 2\n<%b:wrap>\n   A line 4 ${boom()}\n</%b:wrap>\n',
+                  "b.html": '\n## B line 2\n## B line 3\n<%def name="wrap()">\nB-before\n${caller.body()}\nB-after\n</%def>\n'},
+    "block-in-child": {"a.html": '<%inherit file="b.html"/>\n\n<%block name="part">\n\n  ${boom()}\n</%block>\n',
+                       "b.html": 'top\n<%block name="part">base</%block>\nend\n${next.body()}\n'},
+    "three": {"a.html": '<%namespace name="b" file="b.html"/>\n<%b:wrap>\n<%b:wrap2>\n\n${boom()}\n</%b:wrap2>\n</%b:wrap>\n',
+              "b.html": '<%namespace name="c" file="c.html"/>\n<%def name="wrap()">\n${caller.body()}\n</%def>\n<%def name="wrap2()">\n\n<%c:inner>${caller.body()}</%c:inner>\n</%def>\n',
+              "c.html": '\n\n\n<%def name="inner()">\n\n\n${caller.body()}</%def>\n'},
+}
+
+
+def run_reentrant(args):
+    kind, path = args
+    from mako.lookup import TemplateLookup
+    from mako import exceptions
+    files = REENTRANT[kind]
+    root = tempfile.mkdtemp(prefix="c12r_")
+    try:
+        for k, v in files.items():
+            open(os.path.join(root, k), "w").write(v)
+        kw = {"module_directory": os.path.join(root, "mods")} if path == "moddir" else {}
+        lk = TemplateLookup(directories=[root], **kw)
+        if path == "string":
+            lk = TemplateLookup()
+            for k, v in files.items():
+                lk.put_string(k, v)
+        try:
+            lk.get_template("a.html").render_unicode(boom=boom)
+            return {"kind": kind, "path": path, "problem": "did not raise"}
+        except ZeroDivisionError:
+            tb = exceptions.RichTraceback()
+        names = [os.path.basename(str(r[4])).lstrip("/") for r in tb.records if r[4] is not None]
+        problems = record_consistency(tb, files)
+        if len(set(names)) < 2 or names[-1] != "a.html":
+            problems.append("frames were %r: not the re-entrant shape this case is meant to produce" % names)
+        if problems:
+            return {"kind": kind, "path": path, "frames": names, "problem": "; ".join(problems)}
         return None
     finally:
         shutil.rmtree(root, ignore_errors=True)
@@ -174,6 +253,7 @@ def run_warning(args):
     ent = [w for w in WARN_TEMPLATES if w[0] == kind][0]
     src, expect = "\n".join(ent[1]) + "\n", ent[2]
     root = tempfile.mkdtemp(prefix="c12w_")
+    cwd0 = os.getcwd()
     try:
         with warnings.catch_warnings(record=True) as rec:
             warnings.resetwarnings()
@@ -206,4 +286,5 @@ def run_warning(args):
             return {"warning": kind, "path": path, "action": action, "problem": "shown at line %r, the literal is on template line %d" % (w.lineno, expect)}
         return None
     finally:
+        os.chdir(cwd0)
         shutil.rmtree(root, ignore_errors=True)
